@@ -5,6 +5,7 @@ mod common;
 mod m_matcher;
 mod m_striptrim;
 mod m_sliceindex;
+mod m_strindex;
 
 use common::*;
 use rand::{rngs::SmallRng, SeedableRng};
@@ -15,6 +16,7 @@ fn replay_line(s: &mut Summary, v: &V) {
         "Matcher" => m_matcher::replay(s, v),
         "StripTrim" => m_striptrim::replay(s, v),
         "SliceIndex" => m_sliceindex::replay(s, v),
+        "StrIndex" => m_strindex::replay(s, v),
         m => panic!("kh: unknown module {m}"),
     }
 }
@@ -60,6 +62,7 @@ fn main() {
                 "Matcher" => m_matcher::record(&mut rng, n, &mut out),
                 "StripTrim" => m_striptrim::record(&mut rng, n, &mut out),
                 "SliceIndex" => m_sliceindex::record(&mut rng, n, &mut out),
+                "StrIndex" => m_strindex::record(&mut rng, n, &mut out),
                 m => panic!("kh: unknown module {m}"),
             }
             out.flush().unwrap();
